@@ -905,6 +905,16 @@ func FreshCopyOf(v ssa.Value, isSrc func(ssa.Value) bool) (site ssa.Instruction,
 			}
 			return nil, false
 		}
+		// the standard library's shallow copy: slices.Clone(src) (and bytes.Clone for byte slices)
+		if cal := CalleeFn(&call.Call); cal != nil && len(call.Call.Args) == 1 {
+			full := cal.String()
+			if i := strings.Index(full, "["); i >= 0 {
+				full = full[:i]
+			}
+			if (full == "slices.Clone" || full == "bytes.Clone") && AllOrigins(call.Call.Args[0], isSrc) {
+				return call, true
+			}
+		}
 		// result of an in-package helper
 		if cal := CalleeFn(&call.Call); cal != nil && cal.Pkg == call.Parent().Pkg && len(cal.Blocks) > 0 && cal.Signature.Results().Len() == 1 {
 			var s ssa.Instruction
